@@ -61,14 +61,27 @@ def carriers(flag):
     yield "sub_two_levels", [sub("mid", [P("y")], "r", flag=flag), call("ident", [Vv("r", 0)], "s")], ["tuple", [Vv("r", 0), Vv("r", 1), Vv("s")]], [MID], None
 
 
+def two_part_programs():
+    """two nodes guarded by DIFFERENT parts of the same producer (one truthy, one falsy for suitable inputs)"""
+    yield "unpacked_both", [call("pair_u", [P("x")], ["fa", "fb"]), call("inc", [P("y")], "r", flag=Vv("fa")), call("inc", [P("y")], "s", flag=Vv("fb")),
+                            call("ident", [Vv("s")], "t")], ["tuple", [Vv("r"), Vv("s"), Vv("t")]]
+    yield "dict_both", [call("mkd", [P("x")], "m"), call("inc", [P("y")], "r", flag=Vv("m", "k")), call("add", [P("y")], "s", flag=Vv("m", "l", 1)),
+                        call("inc", [P("y")], "u", flag=Vv("m"))], ["tuple", [Vv("r"), Vv("s"), Vv("u")]]
+    yield "tuple_both_reversed", [call("pair", [P("x")], "m"), call("inc", [P("y")], "s", flag=Vv("m", 1)), call("inc", [P("y")], "r", flag=Vv("m", 0))], \
+        ["list", [Vv("r"), Vv("s")]]
+
+
 def cases(tier: str):
+    for name, body, rspec in two_part_programs():
+        prog = {"name": "main", "params": [["x", NODEFAULT], ["y", 4]], "body": body, "ret": rspec, "subs": []}
+        yield dict(flag="two_parts", carrier=name, prog=prog, expect_build_error=None)
     for fname, fstmts, fatom in flag_forms():
         for cname, cstmts, rspec, subs, err in carriers(fatom):
             prog = {"name": "main", "params": [["x", NODEFAULT], ["y", 4]], "body": fstmts + cstmts, "ret": rspec, "subs": subs}
             yield dict(flag=fname, carrier=cname, prog=prog, expect_build_error=err)
 
 
-INPUTS = [(0,), (3,), (-1,), (0, 7), (3, 7)]
+INPUTS = [(0,), (3,), (-1,), (-2,), (0, 7), (3, 7)]
 
 
 def run_one(acc, c):
